@@ -59,7 +59,7 @@ func (its *MongoCollections) GetOperations(
 		AddFilterEQ(schema.OperationDocFields.DUID, duid).
 		AddFilterGTE(schema.OperationDocFields.Sseq, from)
 	if to != constants.InfinitySseq {
-		f.AddFilterLTE(schema.OperationDocFields.Sseq, to)
+		f = f.AddFilterLTE(schema.OperationDocFields.Sseq, to)
 	}
 	opt := options.Find()
 
@@ -82,6 +82,21 @@ func (its *MongoCollections) GetOperations(
 		sseqList = append(sseqList, opDoc.Sseq)
 	}
 	return opList, sseqList, nil
+}
+
+// DeleteOperationsAfter deletes the operations of the datatype whose sseq is beyond the given one.
+func (its *MongoCollections) DeleteOperationsAfter(ctx iface.OrdaContext, duid string, sseq uint64) errors.OrdaError {
+	f := schema.GetFilter().
+		AddFilterEQ(schema.OperationDocFields.DUID, duid).
+		AddFilterGTE(schema.OperationDocFields.Sseq, sseq+1)
+	result, err := its.operations.DeleteMany(ctx, f)
+	if err != nil {
+		return errors.ServerDBQuery.New(ctx.L(), err.Error())
+	}
+	if result.DeletedCount > 0 {
+		ctx.L().Warnf("deleted %d uncommitted operations of %s beyond sseq %d", result.DeletedCount, duid, sseq)
+	}
+	return nil
 }
 
 // PurgeOperations purges operations for the specified datatype.
